@@ -876,6 +876,18 @@ fn garbage(rng: &mut Rng, fq: bool) -> Vec<u8> {
                 let p = rng.below(f.len() + 1);
                 f.insert(p, 0xC3); // a lone UTF-8 lead byte
             }
+            if rng.chance(1, 30) {
+                // non-ASCII Unicode white space (NEL, NBSP, ideographic space) at the end of a line: `trim_end` removes
+                // it, the byte-level model (ASCII white space) does not — expected `drift-nonascii`
+                let ends: Vec<usize> = f.iter().enumerate().filter(|(_, &b)| b == b'\n').map(|(i, _)| i).collect();
+                if !ends.is_empty() {
+                    let p = ends[rng.below(ends.len())];
+                    let ws: &[u8] = [&b"\xc2\x85"[..], &b"\xc2\xa0"[..], &b"\xe3\x80\x80"[..]][rng.below(3)];
+                    for (i, b) in ws.iter().enumerate() {
+                        f.insert(p + i, *b);
+                    }
+                }
+            }
             f
         }
     }
